@@ -48,9 +48,15 @@ CHECKS = [
     chk("C08", "acmed-sim", "fault_enumeration",
         "exhaustive single-error-run grid: every POST position of a two-identifier issuance x 29 error answers x run lengths 1..12, plus never-ready objects at every polling phase; oracle = the CA's per-URL transmission log (count, newest nonce, identical content, outcome)",
         TRUST, SIM + "; exhaustive fault grid", "DESIGN.md 7 (C08)"),
+    chk("C09", "acmed-sim", "exploration",
+        "limiter swarm on one endpoint (1..3 limits, n in 1..20, periods 1 s..10 s and per-minute/hour, 1..6 certificates, 1..3 accounts, bursts, renewals, retry storms); every request of any kind is stamped with the virtual clock at the transport seam and every window (t-p, t] anchored at a request is counted exactly against every limit; liveness: all certificates issued within the budget",
+        TRUST + "; exact check possible only because the simulator owns the clock", SIM + "; exact window check in virtual time", "DESIGN.md 7 (C09)"),
     chk("C10", "acmed-sim", "exploration",
         "generated hook tables (multi-typed hooks, nested groups, templates, allow_failure x exit codes incl. signals) x environment tables at four levels colliding with the process environment; an independent expansion model is compared batch by batch with the process seam's records: selection, order, one at a time, stop at first hard failure, argv/stdin/stdout rendering, environment precedence, pre/post x create/edit brackets around storage-seam writes, clean hooks after validated challenges",
         TRUST + "; the child process is a stub (simhook)", SIM + "; independent trace model over seeded configurations", "DESIGN.md 7 (C10)"),
+    chk("C12", "acmed-sim", "exploration",
+        "2..8 certificates over 1..3 accounts and 1..3 endpoints in every sharing pattern under seeded completion orders (latencies, tie-breaks, zero-sleep yields, initial poll order, lock fairness mode), with raced first registration, CA-forgotten accounts and pending account changes; oracles: executor deadlock/livelock detectors, attempt termination, newAccount ledger, nonce ledger",
+        TRUST + "; acmed has one task: the completion order owned by the executor is its whole schedule space (worker-thread counts are not a dimension); async-lock's fairness heuristic reads the virtual clock through a seam in the shadow build", SIM + "; seeded schedule search", "DESIGN.md 7 (C12)"),
     chk("C13", "acmed-sim", "exploration",
         "invariant at the storage seam, which performs the real open(2)/chown(2): every file written in seeded create/rewrite/restart histories is stat(2)ed; mode at creation == configured & ~umask, unchanged by rewrites; owner as configured by name or number",
         TRUST + "; runs as root in the sandbox; weakest fit for the technique (no schedule or fault in the statement)", SIM + "; invariant over seeded histories", "DESIGN.md 7 (C13)"),
